@@ -47,6 +47,9 @@ type zzvVec struct {
 	Len   int      `json:"len"`
 	Runs  []zzvRun `json:"runs"`
 	Parse string   `json:"parse"`
+	// Legacy: the layout is the encoding an older protocol version produced (node info without its newest
+	// fields); the current encoder cannot produce it, the decoder must accept it
+	Legacy bool `json:"legacy"`
 }
 
 type zzvHostile struct {
@@ -70,7 +73,7 @@ type zzvCodecIn struct {
 type zzvStream struct{ r *mrand.Rand }
 
 func zzvNewStream(seed int64) *zzvStream { return &zzvStream{r: mrand.New(mrand.NewSource(seed))} }
-func (s *zzvStream) next() byte         { return byte(1 + s.r.Intn(255)) }
+func (s *zzvStream) next() byte          { return byte(1 + s.r.Intn(255)) }
 func (s *zzvStream) bytes(n int) []byte {
 	b := make([]byte, n)
 	for i := range b {
@@ -78,10 +81,10 @@ func (s *zzvStream) bytes(n int) []byte {
 	}
 	return b
 }
-func (s *zzvStream) u8() uint8     { return s.next() }
-func (s *zzvStream) u16() uint16   { return binary.BigEndian.Uint16(s.bytes(2)) }
-func (s *zzvStream) u64() uint64   { return binary.BigEndian.Uint64(s.bytes(8)) }
-func (s *zzvStream) flag() bool    { return s.next()&1 == 1 }
+func (s *zzvStream) u8() uint8        { return s.next() }
+func (s *zzvStream) u16() uint16      { return binary.BigEndian.Uint16(s.bytes(2)) }
+func (s *zzvStream) u64() uint64      { return binary.BigEndian.Uint64(s.bytes(8)) }
+func (s *zzvStream) flag() bool       { return s.next()&1 == 1 }
 func (s *zzvStream) str(n int) string { return string(s.bytes(n)) }
 func (s *zzvStream) id() identity.AgentID {
 	var id identity.AgentID
@@ -229,17 +232,30 @@ func zzvBuildNodeInfo(sk []any, s *zzvStream) NodeInfo {
 		n.Peers[i].IsDialer = s.flag()
 	}
 	n.PublicKey = s.key()
-	n.UDPEnabled = s.flag()
-	nl, le := skList(sk[10])
-	n.ForwardListeners = make([]ForwardListenerInfo, nl)
-	for i := range n.ForwardListeners {
-		n.ForwardListeners[i].Key = s.str(skInt(le[0]))
-		n.ForwardListeners[i].Address = s.str(skInt(le[1]))
+	// the remaining fields were appended in later protocol versions; a legacy skeleton ends before some of them
+	if len(sk) > 9 {
+		n.UDPEnabled = s.flag()
 	}
-	n.Shells = s.strs(sk[11])
-	n.FileTransferEnabled = s.flag()
-	n.ShellEnabled = s.flag()
-	n.IcmpEnabled = s.flag()
+	if len(sk) > 10 {
+		nl, le := skList(sk[10])
+		n.ForwardListeners = make([]ForwardListenerInfo, nl)
+		for i := range n.ForwardListeners {
+			n.ForwardListeners[i].Key = s.str(skInt(le[0]))
+			n.ForwardListeners[i].Address = s.str(skInt(le[1]))
+		}
+	}
+	if len(sk) > 11 {
+		n.Shells = s.strs(sk[11])
+	}
+	if len(sk) > 12 {
+		n.FileTransferEnabled = s.flag()
+	}
+	if len(sk) > 13 {
+		n.ShellEnabled = s.flag()
+	}
+	if len(sk) > 14 {
+		n.IcmpEnabled = s.flag()
+	}
 	return n
 }
 
@@ -809,15 +825,15 @@ func TestZZVCodec(t *testing.T) {
 	seed := zzvSeed()
 	rng := mrand.New(mrand.NewSource(seed*7919 + 17))
 	st := &zzvStats{distinct: map[[32]byte]struct{}{}, viol: map[string]int{}}
-	nMut := zzvEnvInt("ZZV_MUT", 40)            // random mutations per shape
-	nRand := zzvEnvInt("ZZV_RAND", 400)          // random inputs per decoder
+	nMut := zzvEnvInt("ZZV_MUT", 40)                // random mutations per shape
+	nRand := zzvEnvInt("ZZV_RAND", 400)             // random inputs per decoder
 	fullPrefix := zzvEnvInt("ZZV_PREFIX_FULL", 160) // encodings up to this length: every strict prefix
 	samplePrefix := zzvEnvInt("ZZV_PREFIX_SAMPLE", 40)
 
 	zzvEmit("sizes", map[string]any{"elem": []int{int(unsafe.Sizeof(RouteAdvertise{})), int(unsafe.Sizeof(RouteWithdraw{})),
 		int(unsafe.Sizeof(NodeInfoAdvertise{}))}})
 
-	shapes, prefixes, cellmuts, bytemuts, bindErr := 0, 0, 0, 0, 0
+	shapes, prefixes, cellmuts, bytemuts, bindErr, legacy := 0, 0, 0, 0, 0, 0
 	perType := map[string]int{}
 	var sample []map[string]any
 	for vi, v := range in.Vecs {
@@ -832,6 +848,27 @@ func TestZZVCodec(t *testing.T) {
 		m := c.build(v.Sk, zzvNewStream(cseed))
 		want, cells := zzvConcretise(v.Runs, zzvNewStream(cseed))
 		enc, pv := zzvEncode(c, m)
+		if v.Legacy && pv == nil {
+			// the bytes under test are the spec's legacy layout; m (missing fields zero) is what must come out
+			legacy++
+			enc = want
+			o := zzvDecode(c, enc, false)
+			ok := o.panicv == nil && o.err == nil
+			if ok {
+				if dn, isN := o.msg.(*NodeInfoAdvertise); isN {
+					mm := *m.(*NodeInfoAdvertise)
+					mm.EncInfo = dn.EncInfo // raw input bytes of the wrapper; the decoded Info is what is compared
+					ok = zzvNormalize(&mm) == zzvNormalize(dn)
+				} else {
+					ok = zzvNormalize(o.msg) == zzvNormalize(m)
+				}
+			}
+			if !ok {
+				st.report("roundtrip", v.Ty, fmt.Sprintf("legacy encoding not decoded to the message with zero-valued new fields (err=%v panic=%v)", o.err, o.panicv),
+					enc, map[string]any{"vec": vi, "sk": v.Sk, "outcome": "legacy"})
+			}
+			m = nil
+		}
 		if pv != nil {
 			st.report("roundtrip", v.Ty, fmt.Sprintf("Encode panics on a message within the wire limits: %v", pv), nil,
 				map[string]any{"vec": vi, "sk": v.Sk})
@@ -839,46 +876,48 @@ func TestZZVCodec(t *testing.T) {
 		}
 		// binding: the real encoder produces exactly the spec layout (reported below, with the round-trip result)
 		bindOK := len(enc) == v.Len && bytes.Equal(enc, want)
-		// verdict: lossless
-		o := zzvDecode(c, enc, true)
-		st.measured++
-		if o.alloc > zzvAllocBound(len(enc)) {
-			st.report("alloc", v.Ty, "allocation out of proportion", enc, map[string]any{"alloc": o.alloc, "origin": "valid"})
-		}
-		switch {
-		case o.panicv != nil:
-			st.report("roundtrip", v.Ty, fmt.Sprintf("decoder panics on a valid encoding: %v", o.panicv), enc, map[string]any{"vec": vi, "sk": v.Sk})
-		case o.err != nil:
-			st.report("roundtrip", v.Ty, "valid encoding rejected: "+o.err.Error(), enc, map[string]any{"vec": vi, "sk": v.Sk, "outcome": "error"})
-		case zzvNormalize(o.msg) != zzvNormalize(m):
-			extra := map[string]any{"vec": vi, "sk": v.Sk, "outcome": "differs"}
-			if q, ok := m.(*QueuedState); ok {
-				extra["outcome"] = zzvWakeOutcome(q, o.msg.(*QueuedState))
-				extra["sleep_same"] = (q.SleepCmd == nil) == (o.msg.(*QueuedState).SleepCmd == nil) &&
-					(q.SleepCmd == nil || zzvNormalize(q.SleepCmd) == zzvNormalize(o.msg.(*QueuedState).SleepCmd))
+		if m != nil {
+			// verdict: lossless
+			o := zzvDecode(c, enc, true)
+			st.measured++
+			if o.alloc > zzvAllocBound(len(enc)) {
+				st.report("alloc", v.Ty, "allocation out of proportion", enc, map[string]any{"alloc": o.alloc, "origin": "valid"})
 			}
-			st.report("roundtrip", v.Ty, "Decode(Encode(m)) differs from m", enc, extra)
-		default:
-			h := sha256.Sum256(append([]byte(v.Ty+"\x00"), enc...))
-			st.distinct[h] = struct{}{}
-			st.accepted++
-			e2, pv2 := zzvEncode(c, o.msg)
-			if pv2 != nil || !bytes.Equal(e2, enc) {
-				st.report("roundtrip", v.Ty, "re-encoding the decoded message gives different bytes", enc, map[string]any{"vec": vi, "sk": v.Sk})
-			}
-		}
-		if !bindOK {
-			bindErr++
-			if bindErr <= 5 {
-				d := 0
-				for d < len(enc) && d < len(want) && enc[d] == want[d] {
-					d++
+			switch {
+			case o.panicv != nil:
+				st.report("roundtrip", v.Ty, fmt.Sprintf("decoder panics on a valid encoding: %v", o.panicv), enc, map[string]any{"vec": vi, "sk": v.Sk})
+			case o.err != nil:
+				st.report("roundtrip", v.Ty, "valid encoding rejected: "+o.err.Error(), enc, map[string]any{"vec": vi, "sk": v.Sk, "outcome": "error"})
+			case zzvNormalize(o.msg) != zzvNormalize(m):
+				extra := map[string]any{"vec": vi, "sk": v.Sk, "outcome": "differs"}
+				if q, ok := m.(*QueuedState); ok {
+					extra["outcome"] = zzvWakeOutcome(q, o.msg.(*QueuedState))
+					extra["sleep_same"] = (q.SleepCmd == nil) == (o.msg.(*QueuedState).SleepCmd == nil) &&
+						(q.SleepCmd == nil || zzvNormalize(q.SleepCmd) == zzvNormalize(o.msg.(*QueuedState).SleepCmd))
 				}
-				rtOK := o.panicv == nil && o.err == nil && zzvNormalize(o.msg) == zzvNormalize(m)
-				zzvEmit("bind", map[string]any{"ty": v.Ty, "vec": vi, "sk": v.Sk, "speclen": v.Len, "reallen": len(enc),
-					"firstdiff": d, "real": zzvHex(enc), "spec": zzvHex(want), "roundtrip_ok": rtOK})
+				st.report("roundtrip", v.Ty, "Decode(Encode(m)) differs from m", enc, extra)
+			default:
+				h := sha256.Sum256(append([]byte(v.Ty+"\x00"), enc...))
+				st.distinct[h] = struct{}{}
+				st.accepted++
+				e2, pv2 := zzvEncode(c, o.msg)
+				if pv2 != nil || !bytes.Equal(e2, enc) {
+					st.report("roundtrip", v.Ty, "re-encoding the decoded message gives different bytes", enc, map[string]any{"vec": vi, "sk": v.Sk})
+				}
 			}
-		}
+			if !bindOK {
+				bindErr++
+				if bindErr <= 5 {
+					d := 0
+					for d < len(enc) && d < len(want) && enc[d] == want[d] {
+						d++
+					}
+					rtOK := o.panicv == nil && o.err == nil && zzvNormalize(o.msg) == zzvNormalize(m)
+					zzvEmit("bind", map[string]any{"ty": v.Ty, "vec": vi, "sk": v.Sk, "speclen": v.Len, "reallen": len(enc),
+						"firstdiff": d, "real": zzvHex(enc), "spec": zzvHex(want), "roundtrip_ok": rtOK})
+				}
+			}
+		} // m != nil
 		if len(sample) < 4 && (vi%97 == 3 || v.Ty == "QueuedState" && len(enc) > 200 && len(enc) < 400 && len(sample) < 2) {
 			sample = append(sample, map[string]any{"ty": v.Ty, "sk": v.Sk, "len": len(enc), "bytes": zzvHex(enc)})
 		}
@@ -1038,9 +1077,9 @@ func TestZZVCodec(t *testing.T) {
 		viol += n
 	}
 	zzvEmit("summary", map[string]any{"shapes": shapes, "per_type": perType, "prefixes": prefixes, "cell_mutations": cellmuts,
-		"byte_mutations": bytemuts, "random_inputs": randoms, "hostile": hostile, "evaluations": st.evals,
+		"byte_mutations": bytemuts, "random_inputs": randoms, "legacy_shapes": legacy, "hostile": hostile, "evaluations": st.evals,
 		"accepted": st.accepted, "distinct_accepted": len(st.distinct), "alloc_measured": st.measured,
 		"max_alloc": st.maxAlloc, "max_alloc_type": st.maxAllocTy, "bind_errors": bindErr, "violations": viol,
 		"alloc_over_bound_unconfirmed": zzvUnconfirmed,
-		"violation_classes": st.viol, "samples": sample})
+		"violation_classes":            st.viol, "samples": sample})
 }
